@@ -21,7 +21,7 @@ import shutil
 import tempfile
 import traceback
 from pathlib import Path
-from typing import Any, Dict, List
+from typing import Any, Dict, List, Sequence
 
 from .core import Ctx, MachineryError
 
@@ -30,6 +30,7 @@ CONSTANTS MaxRuns = {maxruns}
 RootSets = {rootsets}
 Modes = {modes}
 AbortPoints = {aborts}
+Outputs = {outputs}
 UnlinkBeforePage = {unlink}
 CONSTRAINT Emit
 INVARIANT PagesAtTheirNames
@@ -92,6 +93,10 @@ def one_run(k: int, run: Dict[str, Any], base: Path, out: Path) -> Dict[str, Any
         args.append("--html-summary-pages")
     elif run["mode"] == "subject":
         args.append(f"--html-subject={run['subject']}")
+    if run.get("out") == "html":
+        args.append("--make-html")
+    elif run.get("out") == "inv":
+        args.append("--make-intersphinx")
     args += [str(src / r) for r in run["roots"]]
     saved = (tw.TemplateWriter.writeSummaryPages, search.write_lunr_index, tw.TemplateWriter.writeIndividualFiles, sphinx.SphinxInventoryWriter.generate)
     ab = run["abort"]
@@ -158,7 +163,11 @@ def replay_history(job: Dict[str, Any]) -> Dict[str, Any]:
                 break
             if not r["interrupted"] and r["code"] not in (0, 2, 3):
                 bad.append({"invariant": "UndocumentedExitStatus", "run": k, "code": r["code"]})
-            if run["completed"]:
+            if run["completed"] and run.get("out") == "inv":
+                e = got["inv"]
+                if not (e["t"] == "file" and e["run"] == k):
+                    bad.append({"invariant": "InventoryWritten", "run": k, "found": e})
+            elif run["completed"]:
                 roots = run["roots"]
                 subjects = roots if run["mode"] == "full" else [run["subject"]] if run["mode"] == "subject" else []
 
@@ -190,11 +199,12 @@ def replay_history(job: Dict[str, Any]) -> Dict[str, Any]:
                 break
     finally:
         shutil.rmtree(base, ignore_errors=True)
-    return {"bad": bad, "drift": drift, "hist": [{x: r[x] for x in ("roots", "mode", "subject", "abort")} for r in hist]}
+    return {"bad": bad, "drift": drift, "hist": [{x: r.get(x, "both") for x in ("roots", "mode", "subject", "abort", "out")} for r in hist]}
 
 
-def run(ctx: Ctx, maxruns: int, rootsets: List[List[str]], modes: List[str], aborts: List[str], negative: bool = True) -> Dict[str, int]:
-    cfg = dict(maxruns=maxruns, rootsets=tla_set(rootsets), modes=tla_set(modes), aborts=tla_set(aborts))
+def run(ctx: Ctx, maxruns: int, rootsets: List[List[str]], modes: List[str], aborts: List[str], negative: bool = True,
+        outputs: Sequence[str] = ("both",)) -> Dict[str, int]:
+    cfg = dict(maxruns=maxruns, rootsets=tla_set(rootsets), modes=tla_set(modes), aborts=tla_set(aborts), outputs=tla_set(outputs))
     r = ctx.tlc("OutDir", CFG.format(unlink="TRUE", **cfg), workers="auto", check=True, timeout=1800)
     if r.violated:
         raise MachineryError(f"OutDir.tla violates its own properties: {r.violated}")
@@ -223,7 +233,8 @@ def run(ctx: Ctx, maxruns: int, rootsets: List[List[str]], modes: List[str], abo
 def replay_witness(ctx: Ctx, hist: List[Dict[str, Any]]) -> List[str]:
     """Re-run one history without the model's expectations (replay of a recorded violation)."""
     names = sorted({"index", "sum", "inv"} | {r for run in hist for r in run["roots"]})
-    full = [{**run, "completed": run["abort"] == "never" or (run["mode"] == "subject" and run["abort"] in ("summ", "link")),
+    full = [{**run, "completed": run["abort"] == "never" or (run["mode"] == "subject" and run["abort"] in ("summ", "link"))
+             or (run.get("out") == "inv" and run["abort"] != "inv"),
              "fs": [{"n": n, "t": "none", "role": "", "run": 0, "to": ""} for n in names]} for run in hist]
     res = replay_history({"hist": full, "scratch": str(ctx.scratch)})
     return sorted({b["invariant"] for b in res["bad"]})
